@@ -5,9 +5,13 @@ C10 driver. Line kinds
        | <op> | <op> … => <obs per op …> ## <isRecording> <childSpanCount> <endTime> ; <delivery> ; <delivery> …`
    task: 0 = no runtime/trace task, g = `executionTracerTaskEnd` replaced by a gate, r = real runtime/trace task
    ops : C04's mutators (`sa`, `ev`, `ln`, `re`, `st`, `nm`), `e <k>` (End call k with timestamp k, in its own
-         goroutine, run to its first gate or return), `g <k>` (release call k's gate), `ir` (IsRecording), `ch [D|R|S]` (child
+         goroutine, run to its first gate or return), `rE <k> <hex msg>` (goroutine k: RecordError(err), err.Error() parks
+         on a gate INSIDE the critical section), `pe <k> <hex msg>` (goroutine k: `defer span.End(ts k); panic(err)`, same
+         gate inside fmt.Sprint(recovered)), `g <k>` (release call k's gate), `ir` (IsRecording), `ch [D|R|S]` (child
          Start), `ot` (Tracer()/ForceFlush), `rg <p>` / `ur <p>` (Register/UnregisterSpanProcessor)
    obs : `-` · `0|1` (ir) · `r` returned · `T` blocked in the task-end hook · `P<p>` blocked inside OnEnd of p · `H` hang
+         `E` parked inside Error() · `~` started while a call is parked inside its critical section, not awaited ·
+         `!` skipped · `<a>+<b>` on the release of an `E` gate: the released call's observation, then the pending op's
    delivery = `<p> <endTime> <children> <immutable 0|1> <snapshot (9 tokens, C04 syntax)>` in OnEnd order
 `hist <gen> <perm procs a.b.c|-> <nShared> | <ev> <ev> … => <isRecording> <endTime> <children> ; <snap> ; <snap> …`
    evs : SAc<i>:<k> SAr<i> EVc<i> EVr<i> NMc<i> NMr<i> STc<i>:<code> STr<i> CHc<i> CHr<i> IRc<i> IRr<i>:<0|1>
@@ -36,6 +40,8 @@ def parseSOp : List String → Option SOp
   | ["ot"] => some .other
   | ["rg", p] => p.toNat?.map .reg
   | ["ur", p] => p.toNat?.map .unreg
+  | ["rE", k, m] => do pure (.recErrG (← k.toNat?) (← parseHex m))
+  | ["pe", k, m] => do pure (.endPanic (← k.toNat?) (← parseHex m))
   | ["end"] => none
   | g => (parseOp g).map .mut
 
@@ -76,25 +82,45 @@ def modelFinal (s : C10.St) : Final :=
     dels := s.delivered.map fun (p, sn) =>
       { p := p, et := sn.endTime.getD 0, children := sn.children, imm := true, snap := sn.snap } }
 
-/-- Spec oracle on a controlled schedule, from the script and the observations only (no LTS): the End that wins is the
-first `e` op of the script (ops are issued one at a time); everything before it is in, everything after it is out. -/
-def schedOracle (lim : Limits) (name : Bytes) (ops : List SOp) (obs : List String) (fin : Final) : List String :=
-  let isE : SOp → Bool := fun | .end_ _ => true | _ => false
+/-- reflect type string of the harness's gate error (`typeStr`): a parameter, like `errorsNewType` -/
+def gateErrType : Bytes := "*trace.c10GateErr".toUTF8.toList
+
+/-- Spec oracle on a controlled schedule, from the script and the observations only (no LTS). Ops are issued one at a
+time, so script order is the order of effect (a call parked inside its critical section holds the mutex: it takes
+effect where it stands, before the one op issued while it is parked). The End that wins is the first `e` / `pe` op;
+everything before it is in (for `pe`: including its own exception event), everything after it is out. -/
+def schedOracle (lim : Limits) (name : Bytes) (ops0 : List SOp) (obs0 : List String) (fin : Final) : List String :=
+  -- ops the harness skipped (`!`: issued while a pending op already existed) did not happen
+  let pairs := (ops0.zip obs0).filter fun (_, o) => o != "!"
+  let ops := pairs.map (·.1)
+  let obs := pairs.map (·.2)
+  let own (o : String) : String := (o.splitOn "+").headD ""
+  let pend (o : String) : String := ((o.splitOn "+").drop 1).headD ""
+  let isE : SOp → Bool := fun | .end_ _ => true | .endPanic _ _ => true | _ => false
   let firstIdx := ops.findIdx? isE
-  let k := match ops.find? isE with | some (.end_ k) => k | _ => 0
+  let (k, extra) : Nat × List Op := match ops.find? isE with
+    | some (.end_ k) => (k, [])
+    | some (.endPanic k msg) => (k, [.recordError (some (gateErrType, msg)) []])
+    | _ => (0, [])
   let ended := firstIdx.isSome
   let cutAt := firstIdx.getD ops.length
   let pre := ops.take cutAt
-  let muts := pre.filterMap fun | .mut op => some op | _ => none
+  let muts := (pre.filterMap fun
+    | .mut op => some op
+    | .recErrG _ msg => some (.recordError (some (gateErrType, msg)) [])
+    | _ => none) ++ extra
   -- every child STARTED before the end counts, whatever the sampler decided for it
   let nChild := (pre.filter fun | .child _ => true | _ => false).length
   let regd := pre.filterMap fun | .reg p => some p | _ => none
   let must := regd.filter fun p => !(ops.contains (.unreg p))
-  let winnerReturned := (ops.zip obs).any fun (op, o) => o == "r" && (op == .end_ k || op == .gate k)
+  let nextObs := obs.drop 1 ++ [""]
+  let winnerReturned := ((ops.zip obs).zip nextObs).any fun ((op, o), o') =>
+    (own o == "r" && (op == .end_ k || op == .gate k || (match op with | .endPanic k' _ => k' == k | _ => false))) ||
+    (op == .end_ k && o == "~" && pend o' == "r")
   let procs := fin.dels.map (·.p)
   let bad : List String := []
-  let bad := if obs.any (fun o => o == "H" || o == "X") then "hang" :: bad else bad
-  let bad := if obs.length == ops.length then bad else "obs-count" :: bad
+  let bad := if obs0.any (fun o => (o.splitOn "+").any fun x => x == "H" || x == "X") then "hang" :: bad else bad
+  let bad := if obs0.length == ops0.length then bad else "obs-count" :: bad
   let bad := if Spec.atMostOnce procs then bad else "end_once:twice" :: bad
   let bad := if !winnerReturned || Spec.exactlyOnce must procs then bad else "end_once:missing" :: bad
   let bad := if ended || procs.isEmpty then bad else "end_once:delivered-without-end" :: bad
@@ -107,7 +133,9 @@ def schedOracle (lim : Limits) (name : Bytes) (ops : List SOp) (obs : List Strin
              else "snapshot_is_prefix_of_mutations" :: bad
   let bad := if fin.dels.all (·.imm) then bad else "snapshot_immutable" :: bad
   let bad := if fin.ir == !ended then bad else "not_recording:final" :: bad
-  let irBad := (ops.zip obs).zipIdx.any fun ((op, o), j) => op == .isRec && o != (if j < cutAt then "1" else "0")
+  let irBad := (((ops.zip obs).zip nextObs).zipIdx).any fun (((op, o), o'), j) =>
+    let want := if j < cutAt then "1" else "0"
+    op == .isRec && (if o == "~" then pend o' != want else o != want)
   let bad := if irBad then "not_recording_after_end" :: bad else bad
   let bad := if fin.children == nChild && fin.dels.all (·.children == nChild) then bad else "child_count_exact" :: bad
   bad.reverse
@@ -160,13 +188,17 @@ def schedLine (task pg : String) (ls : List String) (name0 : String) (rest obs :
   let [o1, o2] := splitOnTok "##" obs | none
   let fin ← parseFinal o2
   let cfg : Cfg := { lim := lim, name := name, hasTask := task != "0" }
-  let gates : Gates := { task := task == "g", proc := pg.startsWith "1" }
-  let (s, mobs) := runScript cfg gates (init cfg) ops
+  let gates : Gates := { task := task == "g", proc := pg.startsWith "1", errType := gateErrType }
+  let ((s0, aux), mobs) := runScript2 cfg gates (init cfg) {} ops
+  -- a script that ends with a call parked inside a critical section: implicit release (the harness does the same)
+  let s := match aux.parked with
+    | some (k, _, _) => (applyOp2 cfg gates s0 aux (.gate k)).1.1
+    | none => s0
   let mfin := modelFinal s
   let agree := mobs == o1 && mfin == fin
   let bad := schedOracle lim name ops o1 fin
-  let nE := (ops.filter fun | .end_ _ => true | _ => false).length
-  let afterEnd := (ops.dropWhile fun | .end_ _ => false | _ => true).drop 1
+  let nE := (ops.filter fun | .end_ _ => true | .endPanic _ _ => true | _ => false).length
+  let afterEnd := (ops.dropWhile fun | .end_ _ => false | .endPanic _ _ => false | _ => true).drop 1
   let tags := (if nE ≥ 2 then ["end-again"] else []) ++ (if nE == 0 then ["no-end"] else []) ++
     (if mobs.contains "T" then ["task-gate"] else []) ++ (if task == "r" then ["rt-task"] else []) ++
     (if mobs.any (·.startsWith "P") then ["onend-gate"] else []) ++
@@ -175,6 +207,11 @@ def schedLine (task pg : String) (ls : List String) (name0 : String) (rest obs :
     (if ops.any (fun | .child .drop => true | _ => false) then ["child-dropped"] else []) ++
     (if ops.any (fun | .child .recordOnly => true | _ => false) then ["child-record-only"] else []) ++
     (if pg.endsWith "R" then ["parent-record-only"] else []) ++
+    (if ops.any (fun | .recErrG _ _ => true | _ => false) && mobs.contains "E" then ["recorderror-parked"] else []) ++
+    (if ops.any (fun | .endPanic _ _ => true | _ => false) then ["end-panicking"] else []) ++
+    (if ops.any (fun | .endPanic _ _ => true | _ => false) && mobs.contains "E" then ["end-panicking-parked"] else []) ++
+    (if mobs.contains "~" then ["op-while-lock-held"] else []) ++
+    (if mobs.any (fun o => o.startsWith "r+") || mobs.any (fun o => (o.splitOn "+").length == 2) then ["released-with-pending"] else []) ++
     (if s.delivered.length ≥ 2 then ["fanout"] else []) ++
     (if s.loaded == some [] then ["no-processor"] else []) ++
     (if afterEnd.any (fun | .reg _ => true | .unreg _ => true | _ => false) then ["reg-during-end"] else []) ++
